@@ -18,7 +18,10 @@ LEVEL = "proof"
 F = "moclo/moclo/core/_assembly.py"
 FILES = [F, "moclo/moclo/core/vectors.py", "moclo/moclo/errors.py"]
 FUNCTIONS = [(F, "AssemblyManager.__init__"), (F, "AssemblyManager._generate_modules_map"),
-             (F, "AssemblyManager._generate_assembly"), (F, "AssemblyManager.assemble")]
+             (F, "AssemblyManager._generate_assembly"), (F, "AssemblyManager.assemble")] + [
+             ("moclo/moclo/errors.py", q_) for q_ in (
+                 "DuplicateModules.__init__", "DuplicateModules.__str__", "MissingModule.__init__", "MissingModule.__str__",
+                 "UnusedModules.__init__", "UnusedModules.__str__", "InvalidSequence.__init__", "InvalidSequence.__str__")]
 ASSUMES = ["D-SEQ", "D-REC-ADD", "D-WARN", "D-COPY",
            "abstract view of the entity contracts (valid/ostart/oend/frag are functions of the entity: C06)",
            "induction rule for the walk-uniqueness lemma (base and step are discharged, the rule is trusted)",
